@@ -109,6 +109,10 @@ def _returns_only_in_tail(stmts):
         elif isinstance(st, ast.With) and last:
             if not _returns_only_in_tail(st.body):
                 return False
+        elif isinstance(st, ast.Try) and last and not st.orelse and not st.finalbody:
+            # try: ...; return A  except E: return B -- the value is computed inside the try either way
+            if not (_returns_only_in_tail(st.body) and all(_returns_only_in_tail(h.body) for h in st.handlers)):
+                return False
         elif _has_return(st):
             return False
     return True
@@ -130,6 +134,16 @@ def _replace_tail_returns(stmts, make):
     elif isinstance(last, ast.With):
         last = copy.copy(last)
         last.body = _replace_tail_returns(last.body, make)
+        out.append(last)
+    elif isinstance(last, ast.Try) and not last.orelse and not last.finalbody and _has_return(last):
+        last = copy.copy(last)
+        last.body = _replace_tail_returns(last.body, make)
+        hs = []
+        for h in last.handlers:
+            h = copy.copy(h)
+            h.body = _replace_tail_returns(h.body, make)
+            hs.append(h)
+        last.handlers = hs
         out.append(last)
     elif isinstance(last, ast.Raise):
         out.append(last)
